@@ -8,8 +8,8 @@ RULE = (
     "case = (family, ordered tree shape, start node) x 5 iterators; all ordered trees up to n nodes x every start node exhaustively, plus random "
     "shapes up to 60 nodes incl. depth >= 6; distinct = hash of (family, shape, start); trivial = single-node subtree"
 )
-ASSUMPTIONS = ["depth <= 150"]
-GATES = ["mon.C05.sequence", "C05.depth_ge_4", "C05.cousins_at_different_positions", "C05.protocol", "C05.after_mutation", "C05.deep_spine_with_bush", "C05.streamed_groups"]
+ASSUMPTIONS = ["depth <= 150 for the two recursive iterators (pre-order, post-order); the three level-order iterators are also driven through a 1 300-level chain"]
+GATES = ["mon.C05.sequence", "C05.depth_ge_4", "C05.cousins_at_different_positions", "C05.protocol", "C05.after_mutation", "C05.deep_spine_with_bush", "C05.streamed_groups", "C05.deeper_than_recursion_limit"]
 
 
 def plan(tier, seed, jobs):
@@ -127,7 +127,40 @@ def run(ctx):
         for s in starts:
             ctx.case((fam, par, s), sample=dict(case, start=s) if r % 200 == 0 and s == 0 else None)
         check_tree(ctx, nodes, list(par), gen.children_of(par), case, starts)
+    deep_chain(ctx)
     histories(ctx)
+
+
+def deep_chain(ctx):
+    """The three level-order iterators work level by level without recursion, so a subtree deeper than the
+    interpreter's recursion limit is still enumerated completely."""
+    from .. import trees as TR
+    from ..battery import ITERS
+
+    if ctx.shard > 2:
+        return
+    fam = ("Node", "LM", "NM")[ctx.shard]
+    n = 1300
+    par = [None] + list(range(n - 1))
+    nodes = TR.build(par, fam)
+    idmap = {id(o): i for i, o in enumerate(nodes)}
+    for s in (0, 137):
+        ctx.case(("deepchain", fam, s), sample={"family": fam, "par": "chain(%d)" % n, "start": s})
+        for nm, itcls in ITERS:
+            if nm not in ("level", "group", "zigzag"):
+                continue
+            ctx.count("mon.C05.sequence")
+            ctx.count("C05.deeper_than_recursion_limit")
+            got = list(itcls(nodes[s]))
+            if nm == "level":
+                obs = [idmap.get(id(x), "?") for x in got]
+                exp = list(range(s, n))
+            else:
+                obs = [[idmap.get(id(x), "?") for x in g] for g in got]
+                exp = [[i] for i in range(s, n)]
+            if obs != exp:
+                ctx.violation("C05/order/%s-deep-chain" % nm, "reference-order", {"family": fam, "par": "chain(%d)" % n, "start": s, "deepchain": True},
+                              expected="%d levels, ending %r" % (len(exp), exp[-3:]), observed="%d items, ending %r" % (len(obs), obs[-3:]))
 
 
 def histories(ctx):
@@ -150,6 +183,12 @@ def histories(ctx):
 
 
 def replay(ctx, wit):
+    if wit["case"].get("deepchain"):
+        ctx.case(("replay",))
+        for sh in (0, 1, 2):
+            ctx.shard = sh
+            deep_chain(ctx)
+        return
     if "history" in wit["case"]:
         from .. import trees as TR
 
